@@ -463,7 +463,7 @@ Section Lines.
     - destruct (compact_aligned val s Ha) as (s1 & Hc & Ha1 & Hres & _ & Hlc).
       exists s1. repeat split; try assumption. intros val' Hwf. cbn [evaluate]. rewrite Hc.
       destruct (c_has_expr c) eqn:Ehe.
-      + eexists. split; [reflexivity|]. split; [|reflexivity]. now apply line_aligned.
+      + eexists. split; [reflexivity|]. split; [|reflexivity]. now apply (line_aligned val val').
       + eexists. split; [reflexivity|]. split; [|now cbn].
         intros x i Hin. cbn [s_bindings s_locals] in *.
         destruct (Hwf x i Hin) as [(Hlt & Hold & Hv)|(Hhe & _)].
@@ -472,3 +472,166 @@ Section Lines.
           congruence.
   Qed.
 End Lines.
+
+Lemma lookup_In x b bd : lookup x b = Some bd -> In (x, bd) b.
+Proof.
+  induction b as [|[y bd'] b IH]; cbn [lookup]; [discriminate|].
+  destruct (Nat.eqb x y) eqn:E.
+  - apply Nat.eqb_eq in E. subst y. intros [= <-]. now left.
+  - intros H. right. now apply IH.
+Qed.
+
+(* get_variables is insensitive to an order-preserving renumbering *)
+Section SortByIndex.
+  Variable keep : list nat.
+  Hypothesis keep_sorted : sorted keep.
+  Let R (p q : name * nat) : Prop := fst p = fst q /\ index_mapping keep (snd p) = Some (snd q).
+
+  Lemma leb_pres p q p' q' : R p q -> R p' q' -> (snd p <=? snd p') = (snd q <=? snd q').
+  Proof.
+    intros [_ H] [_ H'].
+    destruct (Nat.leb_spec (snd p) (snd p')) as [Hle|Hgt]; symmetry.
+    - apply Nat.leb_le. destruct (Nat.eq_dec (snd p) (snd p')) as [E|NE].
+      + rewrite E in H. rewrite H in H'. injection H' as ->. lia.
+      + pose proof (index_mapping_mono keep _ _ _ _ keep_sorted H H' ltac:(lia)). lia.
+    - apply Nat.leb_gt. exact (index_mapping_mono keep _ _ _ _ keep_sorted H' H Hgt).
+  Qed.
+
+  Lemma insert_by_index_F2 p q l l' :
+    R p q -> Forall2 R l l' -> Forall2 R (insert_by_index p l) (insert_by_index q l').
+  Proof.
+    intros Hpq HF. induction HF as [|a b l l' Hab HF IH]; cbn [insert_by_index].
+    - constructor; [assumption|constructor].
+    - rewrite (leb_pres _ _ _ _ Hpq Hab). destruct (snd q <=? snd b).
+      + constructor; [assumption|]. constructor; assumption.
+      + constructor; assumption.
+  Qed.
+
+  Lemma sort_by_index_F2 l l' : Forall2 R l l' -> Forall2 R (sort_by_index l) (sort_by_index l').
+  Proof.
+    induction 1 as [|a b l l' Hab HF IH]; cbn [sort_by_index]; [constructor|].
+    now apply insert_by_index_F2.
+  Qed.
+
+  Lemma F2_names l l' : Forall2 R l l' -> map fst l = map fst l'.
+  Proof. induction 1 as [|a b l l' [Hab _] _ IH]; cbn; [reflexivity|]. now rewrite Hab, IH. Qed.
+End SortByIndex.
+
+Section Rejected.
+  Context {V : Type}.
+  Variable vnil : V.
+
+  (* a line the parser rejects: nothing happens (repl.rs:91 returns before `compact`) *)
+  Theorem rejected_by_parser_inert (s : @session V) : evaluate vnil s LParseError = EParseError s.
+  Proof. reflexivity. Qed.
+
+  (* a line the compiler rejects: `compact` has already run (repl.rs:95 precedes 118-129), so the
+     session is the compacted one: same names, same aliases, same stored result and result type,
+     variable indices renumbered by `index_mapping (keep_indices ..)`, locals gathered in that
+     order — and every observation a user can make is unchanged *)
+  Theorem rejected_by_compiler_inert val (s : @session V) :
+    aligned val s ->
+    exists s1,
+      evaluate vnil s LCompileError = ECompileError s1 /\
+      renumber (keep_indices (s_bindings s)) (s_bindings s) = Val (s_bindings s1) /\
+      map fst (s_bindings s1) = map fst (s_bindings s) /\
+      s_result s1 = s_result s /\ s_lrt_nil s1 = s_lrt_nil s /\
+      (forall x, request_variable s1 x = request_variable s x) /\
+      get_variables s1 = get_variables s /\
+      (forall x, lookup x (s_bindings s1) = Some BAlias <-> lookup x (s_bindings s) = Some BAlias) /\
+      aligned val s1.
+  Proof.
+    intros Ha. pose proof (aligned_in_range _ _ Ha) as Hrange.
+    destruct (compact_ok s Hrange) as (b' & ls' & Hc & Hr & Hlen & Hnth & Hlc).
+    destruct (compact_aligned val s Ha) as (s1' & Hc' & Ha1 & _).
+    rewrite Hc in Hc'. injection Hc' as <-.
+    eexists. split; [cbn [evaluate]; rewrite Hc; reflexivity|].
+    cbn [s_bindings s_locals s_result s_lrt_nil].
+    split; [assumption|]. split; [eapply renumber_keys; eassumption|].
+    split; [reflexivity|]. split; [reflexivity|].
+    split; [|split; [|split; [|assumption]]].
+    - intros x. unfold request_variable. cbn [s_bindings s_locals].
+      rewrite (renumber_lookup _ _ _ x Hr).
+      destruct (lookup x (s_bindings s)) as [[i|]|] eqn:El; try reflexivity.
+      pose proof (lookup_In _ _ _ El) as Hin.
+      destruct (index_mapping_from_complete 0 (keep_indices (s_bindings s)) i) as [j Hj];
+        [eapply keep_indices_In; eassumption|].
+      unfold index_mapping. rewrite Hj. cbn [option_map].
+      pose proof (index_mapping_spec _ _ _ Hj) as [Hn _]. now rewrite (Hnth _ _ Hn).
+    - unfold get_variables. cbn [s_bindings]. symmetry.
+      eapply F2_names. apply sort_by_index_F2; [apply sort_sorted|].
+      exact (renumber_vars_of _ _ _ Hr).
+    - intros x. rewrite (renumber_lookup _ _ _ x Hr).
+      destruct (lookup x (s_bindings s)) as [[i|]|]; try tauto.
+      destruct (index_mapping _ i); cbn; split; discriminate.
+  Qed.
+End Rejected.
+
+(* ------------------------------------------------------------------------------------------- *)
+(* split_equivalence                                                                            *)
+(* ------------------------------------------------------------------------------------------- *)
+Section Split.
+  Context {V env step : Type}.
+  Variable exec : step -> env -> V -> env * V.
+  Variable isnil : V -> bool.
+  Notation run_seq := (run_seq exec isnil).
+  Notation run_lines := (run_lines exec isnil).
+  Notation line_values := (line_values exec isnil).
+
+  (* one sequence cut in two: the second part runs unless the (non-empty) first part ended in nil *)
+  Lemma run_seq_app a b e v :
+    run_seq (a ++ b) e v =
+    match a with
+    | [] => run_seq b e v
+    | _ => let (e', v') := run_seq a e v in if isnil v' then (e', v') else run_seq b e' v'
+    end.
+  Proof.
+    revert e v. induction a as [|s a IH]; intros e v; [reflexivity|].
+    cbn [app Repl.run_seq]. destruct (exec s e v) as [e1 v1]. destruct (isnil v1) eqn:En.
+    - now rewrite En.
+    - rewrite IH. destruct a as [|s' a]; [cbn; now rewrite En|reflexivity].
+  Qed.
+
+  (* "no line before the last one that has steps evaluated to nil" *)
+  Fixpoint lines_nil_free (ls : list (list step)) (e : env) (v : V) : Prop :=
+    match ls with
+    | [] => True
+    | l :: r =>
+        let (e', v') := run_seq l e v in
+        (l = [] \/ isnil v' = false \/ concat r = []) /\ lines_nil_free r e' v'
+    end.
+
+  Theorem split_equivalence_thm ls e v :
+    lines_nil_free ls e v -> run_lines ls e v = run_seq (concat ls) e v.
+  Proof.
+    revert e v. induction ls as [|l r IH]; intros e v; [reflexivity|].
+    cbn [lines_nil_free Repl.run_lines concat]. rewrite run_seq_app.
+    destruct (run_seq l e v) as [e' v'] eqn:El. intros [Hl Hr]. rewrite (IH _ _ Hr).
+    destruct l as [|s l].
+    - cbn in El. now injection El as <- <-.
+    - destruct Hl as [Hl|[Hl|Hl]]; [discriminate|now rewrite Hl|].
+      rewrite Hl. cbn [Repl.run_seq]. now destruct (isnil v').
+  Qed.
+
+  (* the value printed for every line is the value of the one program made of the lines so far *)
+  Theorem split_equivalence_per_line ls e v k :
+    lines_nil_free ls e v -> k < length ls ->
+    nth_error (line_values ls e v) k = Some (snd (run_seq (concat (firstn (S k) ls)) e v)).
+  Proof.
+    revert e v k. induction ls as [|l r IH]; intros e v k Hnf Hk; [cbn in Hk; lia|].
+    cbn [lines_nil_free] in Hnf. cbn [Repl.line_values firstn concat].
+    destruct (run_seq l e v) as [e' v'] eqn:El. destruct Hnf as [Hl Hr].
+    destruct k as [|k].
+    - cbn [nth_error firstn concat]. now rewrite app_nil_r, El.
+    - cbn [nth_error]. cbn [length] in Hk. rewrite (IH e' v' k Hr ltac:(lia)).
+      rewrite run_seq_app. rewrite El. destruct l as [|s l].
+      + cbn in El. now injection El as <- <-.
+      + destruct Hl as [Hl|[Hl|Hl]]; [discriminate|now rewrite Hl|].
+        (* nothing follows: r has no steps, so every later prefix is empty as well *)
+        assert (Hc : concat (firstn (S k) r) = []).
+        { clear -Hl. revert k. induction r as [|a r IHr]; intros k; [reflexivity|].
+          cbn [concat] in Hl. apply app_eq_nil in Hl. destruct Hl as [-> Hl].
+          cbn [firstn concat app]. destruct k; [now destruct r|]. now apply IHr. }
+        rewrite Hc. cbn [Repl.run_seq]. now destruct (isnil v').
+  Qed.
+End Split.
